@@ -6,7 +6,14 @@
 //! rule     = (L path (L origin...) allow_all mclear (L method...) (L header...) cache_ms)
 //!            built with the public builder: AllowList::new(ms) [.allow_all_methods() if mclear]
 //!            .add_method(m)* .add_origin(o)* [.allow_all_origins()] .add_header(h)*
-//! cfg      = (L base with_cors (L rule...) (L (L path spref)...) cache)
+//! cfg      = (L base with_cors (L rule...) (L (L path spref)...) cache [site])
+//! site     = (L (L (L relpath content)...) (L (L prefix spref)...) flags): the host serves files from a fixture
+//!            directory (fs enabled), has Prepare extensions bound to a predicate (`add_prepare_fn`: the raw request path
+//!            starts with `prefix`; earlier in the list = higher priority) and, by `flags`: 1 = a custom
+//!            `status_code_cache_filter` that caches every status; 2 = every marker handler sets its own
+//!            `access-control-allow-origin: *`; 4 = a Present extension (predicate: always) and a Post extension that log
+//!            "P" / "T"; 8 = the port is secure (TLS; the request's own origin is https://<host>); 16 (with 8) = the
+//!            client speaks HTTP/2 (the authority of the request URI is the operation's `host` header)
 //! op       = (L (N 0) method target (L (L name value)...))  |  (L (N 2))  clear the response cache
 //! reply    = (L status (L (L name value)...) body (L log...))
 use crate::xval::X;
@@ -150,8 +157,48 @@ fn rt() -> &'static tokio::runtime::Runtime {
     })
 }
 
+trait Io: tokio::io::AsyncRead + tokio::io::AsyncWrite + Unpin + Send {}
+impl<S: tokio::io::AsyncRead + tokio::io::AsyncWrite + Unpin + Send> Io for S {}
+
+// TLS material (self-signed certificate for "localhost"), as in c20.rs
+struct Tls {
+    key: Arc<rustls::sign::CertifiedKey>,
+    client_h1: Arc<rustls::ClientConfig>,
+    client_h2: Arc<rustls::ClientConfig>,
+}
+fn tls() -> &'static Tls {
+    static TLS: OnceLock<Tls> = OnceLock::new();
+    TLS.get_or_init(|| {
+        use rustls::pki_types::PrivateKeyDer;
+        let provider = Arc::new(rustls::crypto::ring::default_provider());
+        let ss = rcgen::generate_simple_self_signed(vec!["localhost".to_string()]).expect("self-signed certificate");
+        let cert = ss.cert.der().clone();
+        let pk = PrivateKeyDer::Pkcs8(ss.key_pair.serialized_der().to_vec().into());
+        let pk = rustls::crypto::ring::sign::any_supported_type(&pk).expect("key type");
+        let key = Arc::new(rustls::sign::CertifiedKey::new(vec![cert.clone()], pk));
+        let mut roots = rustls::RootCertStore::empty();
+        roots.add(cert).expect("root");
+        let mk = |alpn: &[u8]| {
+            let mut c = rustls::ClientConfig::builder_with_provider(provider.clone())
+                .with_safe_default_protocol_versions()
+                .expect("versions")
+                .with_root_certificates(roots.clone())
+                .with_no_client_auth();
+            c.alpn_protocols = vec![alpn.to_vec()];
+            Arc::new(c)
+        };
+        Tls { key, client_h1: mk(b"http/1.1"), client_h2: mk(b"h2") }
+    })
+}
+fn io_err(kind: std::io::ErrorKind, what: impl Into<String>) -> std::io::Error {
+    std::io::Error::new(kind, what.into())
+}
+
+/// transport: 0 = HTTP/1.1 on an unsecured port, 1 = HTTP/1.1 over TLS, 2 = HTTP/2 over TLS
 struct Client {
-    stream: Option<tokio::net::TcpStream>,
+    stream: Option<Box<dyn Io>>,
+    h2: Option<h2::client::SendRequest<Bytes>>,
+    transport: u8,
     desc: Arc<PortDescriptor>,
 }
 struct Reply {
@@ -160,7 +207,7 @@ struct Reply {
     body: Vec<u8>,
 }
 impl Client {
-    async fn connect(&mut self) -> std::io::Result<()> {
+    async fn tcp(&self) -> std::io::Result<tokio::net::TcpStream> {
         let listener = tokio::net::TcpListener::bind("127.0.0.1:0").await?;
         let addr = listener.local_addr()?;
         let client = tokio::net::TcpStream::connect(addr).await?;
@@ -169,12 +216,98 @@ impl Client {
         tokio::spawn(async move {
             let _ = kvarn::handle_connection(kvarn::Incoming::Tcp(server_end), peer, desc, || true).await;
         });
-        self.stream = Some(client);
+        let _ = client.set_nodelay(true);
+        Ok(client)
+    }
+    async fn tls(&self, cfg: Arc<rustls::ClientConfig>) -> std::io::Result<tokio_rustls::client::TlsStream<tokio::net::TcpStream>> {
+        let tcp = self.tcp().await?;
+        let name = rustls::pki_types::ServerName::try_from("localhost").unwrap();
+        match tokio::time::timeout(Duration::from_secs(10), tokio_rustls::TlsConnector::from(cfg).connect(name, tcp)).await {
+            Ok(r) => r,
+            Err(_) => Err(io_err(std::io::ErrorKind::TimedOut, "TLS handshake")),
+        }
+    }
+    async fn connect(&mut self) -> std::io::Result<()> {
+        match self.transport {
+            0 => self.stream = Some(Box::new(self.tcp().await?)),
+            1 => self.stream = Some(Box::new(self.tls(tls().client_h1.clone()).await?)),
+            _ => {
+                let s = self.tls(tls().client_h2.clone()).await?;
+                let hs = tokio::time::timeout(Duration::from_secs(10), h2::client::Builder::new().handshake::<_, Bytes>(s)).await;
+                let (send, conn) = match hs {
+                    Ok(Ok(p)) => p,
+                    Ok(Err(e)) => return Err(io_err(std::io::ErrorKind::Other, format!("h2 handshake: {e}"))),
+                    Err(_) => return Err(io_err(std::io::ErrorKind::TimedOut, "h2 handshake")),
+                };
+                tokio::spawn(async move {
+                    let _ = conn.await;
+                });
+                self.h2 = Some(send);
+            }
+        }
         Ok(())
+    }
+    fn reset(&mut self) {
+        self.stream = None;
+        self.h2 = None;
+    }
+    /// One request on the HTTP/2 connection: the authority of the request URI is the `host` header of the operation
+    /// (no `host` header is sent).  None = the stream was reset by the server.
+    async fn exchange_h2(&mut self, method: &[u8], target: &[u8], headers: &[(Vec<u8>, Vec<u8>)]) -> std::io::Result<Option<Reply>> {
+        if self.h2.is_none() {
+            self.connect().await?;
+        }
+        let bad = |what: String| io_err(std::io::ErrorKind::InvalidInput, what);
+        let host = headers.iter().rev().find(|(n, _)| n == b"host").map(|(_, v)| v.clone()).unwrap_or_else(|| b"localhost".to_vec());
+        let mut uri = b"https://".to_vec();
+        uri.extend_from_slice(&host);
+        uri.extend_from_slice(target);
+        let mut b = Request::builder()
+            .method(Method::from_bytes(method).map_err(|e| bad(e.to_string()))?)
+            .uri(Uri::try_from(&uri[..]).map_err(|e| bad(e.to_string()))?);
+        for (n, v) in headers {
+            if n == b"host" {
+                continue;
+            }
+            b = b.header(HeaderName::from_bytes(n).map_err(|e| bad(e.to_string()))?, HeaderValue::from_bytes(v).map_err(|e| bad(e.to_string()))?);
+        }
+        let req = b.body(()).map_err(|e| bad(e.to_string()))?;
+        let send = self.h2.clone().unwrap();
+        let t = Duration::from_secs(8);
+        let mut send = match tokio::time::timeout(t, send.ready()).await {
+            Ok(Ok(s)) => s,
+            Ok(Err(e)) => return Err(io_err(std::io::ErrorKind::Other, format!("h2 ready: {e}"))),
+            Err(_) => return Err(io_err(std::io::ErrorKind::TimedOut, "h2 ready")),
+        };
+        let (resp, _stream) = send.send_request(req, true).map_err(|e| io_err(std::io::ErrorKind::Other, format!("h2 send: {e}")))?;
+        let resp = match tokio::time::timeout(t, resp).await {
+            Err(_) => return Err(io_err(std::io::ErrorKind::TimedOut, "no h2 response head")),
+            Ok(Err(e)) if e.is_reset() && e.is_remote() => return Ok(None),
+            Ok(Err(e)) => return Err(io_err(std::io::ErrorKind::Other, format!("h2 response: {e}"))),
+            Ok(Ok(r)) => r,
+        };
+        let (parts, mut body) = resp.into_parts();
+        let mut data = Vec::new();
+        loop {
+            match tokio::time::timeout(t, body.data()).await {
+                Err(_) => return Err(io_err(std::io::ErrorKind::TimedOut, "no h2 body")),
+                Ok(None) => break,
+                Ok(Some(Err(e))) => return Err(io_err(std::io::ErrorKind::Other, format!("h2 body: {e}"))),
+                Ok(Some(Ok(chunk))) => {
+                    let _ = body.flow_control().release_capacity(chunk.len());
+                    data.extend_from_slice(&chunk);
+                }
+            }
+        }
+        let headers = parts.headers.iter().map(|(n, v)| (n.as_str().to_string(), v.as_bytes().to_vec())).collect();
+        Ok(Some(Reply { status: parts.status.as_u16(), headers, body: data }))
     }
     /// Sends one request; reads one framed response.  None = closed without an answer.
     async fn exchange(&mut self, method: &[u8], target: &[u8], headers: &[(Vec<u8>, Vec<u8>)]) -> std::io::Result<Option<Reply>> {
         use tokio::io::{AsyncReadExt, AsyncWriteExt};
+        if self.transport == 2 {
+            return self.exchange_h2(method, target, headers).await;
+        }
         if self.stream.is_none() {
             self.connect().await?;
         }
@@ -262,14 +395,66 @@ enum Op {
     Clear,
 }
 
+struct Site {
+    files: Vec<(String, Vec<u8>)>,
+    fns: Vec<(Vec<u8>, u128)>,
+    flags: u128,
+}
+fn parse_site(x: &X) -> Option<Site> {
+    let l = x.as_l()?;
+    if l.len() != 3 {
+        return None;
+    }
+    let mut files = Vec::new();
+    for f in l[0].as_l()? {
+        match f.as_l()? {
+            [X::B(p), X::B(c)] => files.push((String::from_utf8(p.clone()).ok()?, c.clone())),
+            _ => return None,
+        }
+    }
+    let mut fns = Vec::new();
+    for f in l[1].as_l()? {
+        match f.as_l()? {
+            [X::B(p), X::N(sp)] => fns.push((p.clone(), *sp)),
+            _ => return None,
+        }
+    }
+    Some(Site { files, fns, flags: l[2].as_n()? })
+}
+fn cache_everything(_: StatusCode) -> host::CacheAction {
+    host::CacheAction::Cache
+}
+fn spref_of(n: u128) -> comprash::ServerCachePreference {
+    match n {
+        0 => comprash::ServerCachePreference::None,
+        1 => comprash::ServerCachePreference::QueryMatters,
+        _ => comprash::ServerCachePreference::Full,
+    }
+}
+fn marker_response(tag: char, idx: usize, spref: u128, own_acao: bool, req: &FatRequest) -> FatResponse {
+    let body = format!("{}{}:{}", tag, idx, req.uri().path());
+    let mut resp = Response::new(Bytes::from(body.into_bytes()));
+    if own_acao {
+        resp.headers_mut().insert("access-control-allow-origin", HeaderValue::from_static("*"));
+    }
+    FatResponse::new(resp, spref_of(spref))
+}
+
 fn conn(x: &X) -> X {
     let l = match x.as_l() {
         Some(l) if l.len() == 2 => l,
         _ => return X::bad(),
     };
     let cfg = match l[0].as_l() {
-        Some(c) if c.len() == 5 => c,
+        Some(c) if c.len() == 5 || c.len() == 6 => c,
         _ => return X::bad(),
+    };
+    let site = match cfg.get(5) {
+        None => None,
+        Some(s) => match parse_site(s) {
+            Some(s) => Some(s),
+            None => return X::bad(),
+        },
     };
     let (base, with_cors, cache) = match (cfg[0].as_n(), cfg[1].as_bool(), cfg[4].as_bool()) {
         (Some(b), Some(w), Some(c)) => (b, w, c),
@@ -317,7 +502,7 @@ fn conn(x: &X) -> X {
                 _ => return X::bad(),
             },
         };
-        let (out, failed) = run_once(base, with_cors, cache, c, &handlers, &ops);
+        let (out, failed) = run_once(base, with_cors, cache, c, &handlers, site.as_ref(), &ops);
         if !failed || attempt == 2 {
             return X::L(vec![X::N(0), X::L(out)]);
         }
@@ -325,7 +510,7 @@ fn conn(x: &X) -> X {
     X::bad()
 }
 
-fn run_once(base: u128, with_cors: bool, cache: bool, cors: Cors, handlers: &[(String, u128)], ops: &[Op]) -> (Vec<X>, bool) {
+fn run_once(base: u128, with_cors: bool, cache: bool, cors: Cors, handlers: &[(String, u128)], site: Option<&Site>, ops: &[Op]) -> (Vec<X>, bool) {
     let log: Arc<Mutex<Vec<Vec<u8>>>> = Arc::new(Mutex::new(Vec::new()));
     let mut ext = if base == 0 { Extensions::new() } else { Extensions::empty() };
     if with_cors {
@@ -333,36 +518,97 @@ fn run_once(base: u128, with_cors: bool, cache: bool, cors: Cors, handlers: &[(S
     } else {
         ext.with_disallow_cors();
     }
+    let flags = site.map_or(0, |s| s.flags);
+    let own_acao = flags & 2 != 0;
     for (i, (path, spref)) in handlers.iter().enumerate() {
         let lg = Arc::clone(&log);
-        let idx = Arc::new((i, *spref));
+        let idx = Arc::new((i, *spref, own_acao));
         ext.add_prepare_single(
             path,
-            prepare!(req, _host, _path, _addr, move |lg: Arc<Mutex<Vec<Vec<u8>>>>, idx: Arc<(usize, u128)>| {
+            prepare!(req, _host, _path, _addr, move |lg: Arc<Mutex<Vec<Vec<u8>>>>, idx: Arc<(usize, u128, bool)>| {
                 lg.lock().unwrap().push(format!("h{}", idx.0).into_bytes());
-                let body = format!("h{}:{}", idx.0, req.uri().path());
-                let sp = match idx.1 {
-                    0 => comprash::ServerCachePreference::None,
-                    1 => comprash::ServerCachePreference::QueryMatters,
-                    _ => comprash::ServerCachePreference::Full,
-                };
-                FatResponse::new(Response::new(Bytes::from(body.into_bytes())), sp)
+                marker_response('h', idx.0, idx.1, idx.2, req)
             }),
         );
     }
+    let posts = Arc::new(std::sync::atomic::AtomicUsize::new(0));
+    let mut dir = None;
+    if let Some(site) = site {
+        let n = site.fns.len() as i32;
+        for (i, (prefix, spref)) in site.fns.iter().enumerate() {
+            let lg = Arc::clone(&log);
+            let idx = Arc::new((i, *spref, own_acao));
+            let pre = prefix.clone();
+            ext.add_prepare_fn(
+                Box::new(move |req, _| req.uri().path().as_bytes().starts_with(&pre)),
+                prepare!(req, _host, _path, _addr, move |lg: Arc<Mutex<Vec<Vec<u8>>>>, idx: Arc<(usize, u128, bool)>| {
+                    lg.lock().unwrap().push(format!("f{}", idx.0).into_bytes());
+                    marker_response('f', idx.0, idx.1, idx.2, req)
+                }),
+                extensions::Id::new(7000 + n - i as i32, "verif marker"),
+            );
+        }
+        if flags & 4 != 0 {
+            let lg = Arc::clone(&log);
+            ext.add_present_fn(
+                Box::new(|_, _| true),
+                present!(_data, move |lg: Arc<Mutex<Vec<Vec<u8>>>>| {
+                    lg.lock().unwrap().push(b"P".to_vec());
+                }),
+                extensions::Id::new(7000, "verif present marker"),
+            );
+            let lg = Arc::clone(&log);
+            let ps = Arc::clone(&posts);
+            ext.add_post(
+                post!(_req, _host, _pipe, _bytes, _addr, move |lg: Arc<Mutex<Vec<Vec<u8>>>>, ps: Arc<std::sync::atomic::AtomicUsize>| {
+                    lg.lock().unwrap().push(b"T".to_vec());
+                    ps.fetch_add(1, std::sync::atomic::Ordering::SeqCst);
+                }),
+                extensions::Id::new(7000, "verif post marker"),
+            );
+        }
+        // fixture directory: <dir>/public/<relpath>
+        static N: std::sync::atomic::AtomicUsize = std::sync::atomic::AtomicUsize::new(0);
+        let d = std::env::temp_dir().join(format!(
+            "kvarn-verif-c13-{}-{}",
+            std::process::id(),
+            N.fetch_add(1, std::sync::atomic::Ordering::SeqCst)
+        ));
+        let mut ok = std::fs::create_dir_all(d.join("public")).is_ok();
+        for (rel, content) in &site.files {
+            let full = d.join("public").join(rel);
+            ok = ok && full.parent().map_or(false, |p| std::fs::create_dir_all(p).is_ok()) && std::fs::write(&full, content).is_ok();
+        }
+        if !ok {
+            let _ = std::fs::remove_dir_all(&d);
+            return (vec![X::L(vec![X::N(93), X::b("fixture directory")])], true);
+        }
+        dir = Some(d);
+    }
     let mut options = host::Options::new();
-    options.disable_fs();
-    let mut host = Host::unsecure("localhost", "/nonexistent-kvarn-verif", ext, options);
+    if site.is_none() {
+        options.disable_fs();
+    }
+    if flags & 1 != 0 {
+        options.status_code_cache_filter = cache_everything;
+    }
+    let host_path = dir.as_ref().map_or("/nonexistent-kvarn-verif".to_string(), |d| d.to_string_lossy().into_owned());
+    let mut host = Host::unsecure("localhost", host_path, ext, options);
     host.limiter.disable();
     if !cache {
         host.disable_response_cache();
     }
+    // flags 8: the port is secure (TLS), 16: the client speaks HTTP/2
+    let transport: u8 = if flags & 8 == 0 { 0 } else if flags & 16 == 0 { 1 } else { 2 };
+    if transport != 0 {
+        *host.certificate.write().unwrap() = Some(tls().key.clone());
+    }
     let coll = HostCollection::builder().default(host).build();
-    let desc = Arc::new(PortDescriptor::unsecure(8080, Arc::clone(&coll)));
+    let desc = Arc::new(if transport == 0 { PortDescriptor::unsecure(8080, Arc::clone(&coll)) } else { PortDescriptor::new(8080, Arc::clone(&coll)) });
     let failed = Arc::new(std::sync::atomic::AtomicBool::new(false));
     let failed2 = Arc::clone(&failed);
     let out = rt().block_on(async move {
-        let mut client = Client { stream: None, desc };
+        let mut client = Client { stream: None, h2: None, transport, desc };
         let mut out = Vec::new();
         for op in ops {
             match op {
@@ -372,12 +618,24 @@ fn run_once(base: u128, with_cors: bool, cache: bool, cors: Cors, handlers: &[(S
                 }
                 Op::Req(m, t, hs) => {
                     log.lock().unwrap().clear();
-                    let r = client.exchange(m, t, hs).await;
+                    let before = posts.load(std::sync::atomic::Ordering::SeqCst);
+                    let mut r = client.exchange(m, t, hs).await;
+                    if flags & 4 != 0 && matches!(r, Ok(Some(_))) {
+                        // the Post extension runs after the response is written: wait for it (bounded)
+                        let t0 = std::time::Instant::now();
+                        while posts.load(std::sync::atomic::Ordering::SeqCst) == before {
+                            if t0.elapsed() > Duration::from_secs(8) {
+                                r = Err(std::io::Error::new(std::io::ErrorKind::TimedOut, "post extension not seen"));
+                                break;
+                            }
+                            tokio::time::sleep(Duration::from_millis(2)).await;
+                        }
+                    }
                     let lg: Vec<X> = log.lock().unwrap().iter().map(X::b).collect();
                     out.push(match r {
                         Err(e) => {
                             failed2.store(true, std::sync::atomic::Ordering::SeqCst);
-                            client.stream = None;
+                            client.reset();
                             X::L(vec![X::N(93), X::b(format!("{:?}", e.kind()))])
                         }
                         Ok(None) => X::L(vec![X::N(0), X::L(vec![]), X::b(""), X::L(lg)]),
@@ -398,6 +656,9 @@ fn run_once(base: u128, with_cors: bool, cache: bool, cors: Cors, handlers: &[(S
         }
         out
     });
+    if let Some(d) = dir {
+        let _ = std::fs::remove_dir_all(d);
+    }
     (out, failed.load(std::sync::atomic::Ordering::SeqCst))
 }
 
